@@ -48,6 +48,11 @@ const (
 	//Amf0TypeMarkerTypedObject = uint8(0x10)
 )
 
+// amf0MaxNestingDepth Object、EcmaArray、StrictArray相互嵌套的最大层数
+//
+// 容器类型是递归读取的，如果不限制层数，对端可以用一条全是嵌套容器标识的消息耗尽协程栈（栈溢出是fatal error，无法recover，整个进程退出）
+const amf0MaxNestingDepth = 64
+
 var (
 	// Amf0TypeMarkerObjectEndBytes Amf0TypeMarkerArrayEndBytes:
 	// object-end-type(0x00 0x00 0x09) 表示Object和EcmaArray类型的结束标识
@@ -284,6 +289,14 @@ func (amf0) ReadUndefinedOrUnsupported(b []byte) (int, error) {
 // @return int: 读取时从 b 消耗的字节大小
 // @return error: ...
 func (amf0) ReadObject(b []byte) (ObjectPairArray, int, error) {
+	return Amf0.readObject(b, 1)
+}
+
+// @param depth: 当前容器所处的嵌套层数，最外层为1
+func (amf0) readObject(b []byte, depth int) (ObjectPairArray, int, error) {
+	if depth > amf0MaxNestingDepth {
+		return nil, 0, nazaerrors.Wrap(base.ErrAmfTooDeep)
+	}
 	if len(b) < 1 {
 		return nil, 0, nazaerrors.Wrap(base.ErrAmfTooShort)
 	}
@@ -305,7 +318,7 @@ func (amf0) ReadObject(b []byte) (ObjectPairArray, int, error) {
 		index += l
 
 		var readErr error
-		ops, index, readErr = Amf0.read(b, index, k, ops)
+		ops, index, readErr = Amf0.read(b, index, k, ops, depth)
 		if readErr != nil {
 			return ops, index, readErr
 		}
@@ -316,6 +329,13 @@ func (amf0) ReadObject(b []byte) (ObjectPairArray, int, error) {
 
 // ReadArray Amf0TypeMarkerEcmaArray
 func (amf0) ReadArray(b []byte) (ObjectPairArray, int, error) {
+	return Amf0.readArray(b, 1)
+}
+
+func (amf0) readArray(b []byte, depth int) (ObjectPairArray, int, error) {
+	if depth > amf0MaxNestingDepth {
+		return nil, 0, nazaerrors.Wrap(base.ErrAmfTooDeep)
+	}
 	if len(b) < 5 {
 		return nil, 0, nazaerrors.Wrap(base.ErrAmfTooShort)
 	}
@@ -334,7 +354,7 @@ func (amf0) ReadArray(b []byte) (ObjectPairArray, int, error) {
 		index += l
 
 		var readErr error
-		ops, index, readErr = Amf0.read(b, index, k, ops)
+		ops, index, readErr = Amf0.read(b, index, k, ops, depth)
 		if readErr != nil {
 			return ops, index, readErr
 		}
@@ -349,6 +369,13 @@ func (amf0) ReadArray(b []byte) (ObjectPairArray, int, error) {
 }
 
 func (amf0) ReadStrictArray(b []byte) (ObjectPairArray, int, error) {
+	return Amf0.readStrictArray(b, 1)
+}
+
+func (amf0) readStrictArray(b []byte, depth int) (ObjectPairArray, int, error) {
+	if depth > amf0MaxNestingDepth {
+		return nil, 0, nazaerrors.Wrap(base.ErrAmfTooDeep)
+	}
 	if len(b) < 5 {
 		return nil, 0, nazaerrors.Wrap(base.ErrAmfTooShort)
 	}
@@ -361,7 +388,7 @@ func (amf0) ReadStrictArray(b []byte) (ObjectPairArray, int, error) {
 	var ops ObjectPairArray
 	for i := 0; i < count; i++ {
 		var readErr error
-		ops, index, readErr = Amf0.read(b, index, "", ops)
+		ops, index, readErr = Amf0.read(b, index, "", ops, depth)
 		if readErr != nil {
 			return ops, index, readErr
 		}
@@ -383,7 +410,8 @@ func (amf0) ReadObjectOrArray(b []byte) (ObjectPairArray, int, error) {
 	return nil, 0, base.NewErrAmfInvalidType(b[0])
 }
 
-func (amf0) read(b []byte, index int, k string, ops ObjectPairArray) (ObjectPairArray, int, error) {
+// @param depth: <b>[index]所属容器的嵌套层数
+func (amf0) read(b []byte, index int, k string, ops ObjectPairArray, depth int) (ObjectPairArray, int, error) {
 	if len(b)-index < 1 {
 		return nil, 0, nazaerrors.Wrap(base.ErrAmfTooShort)
 	}
@@ -417,21 +445,21 @@ func (amf0) read(b []byte, index int, k string, ops ObjectPairArray) (ObjectPair
 		}
 		index += l
 	case Amf0TypeMarkerObject:
-		v, l, err := Amf0.ReadObject(b[index:])
+		v, l, err := Amf0.readObject(b[index:], depth+1)
 		if err != nil {
 			return nil, 0, err
 		}
 		ops = append(ops, ObjectPair{k, v})
 		index += l
 	case Amf0TypeMarkerEcmaArray:
-		v, l, err := Amf0.ReadArray(b[index:])
+		v, l, err := Amf0.readArray(b[index:], depth+1)
 		if err != nil {
 			return nil, 0, err
 		}
 		ops = append(ops, ObjectPair{k, v})
 		index += l
 	case Amf0TypeMarkerStrictArray:
-		v, l, err := Amf0.ReadStrictArray(b[index:])
+		v, l, err := Amf0.readStrictArray(b[index:], depth+1)
 		if err != nil {
 			return nil, 0, err
 		}
